@@ -221,6 +221,16 @@ impl StorCtx {
         }
     }
 
+    /// order marker for steps that are not storage operations of the wrapped database (concurrent runs)
+    fn mark(&self, kind: &'static str) {
+        let mut c = self.db.ctl.lock().unwrap();
+        if c.log_enabled {
+            c.seq += 1;
+            let seq = c.seq;
+            c.log.push(crate::hookdb::OpRec { seq, pid: crate::hookdb::current_pid(), kind, detail: String::new(), failed: false });
+        }
+    }
+
     pub async fn apply(&self, st: &Value, tr: &mut Tracer) {
         if self.sleepy {
             tokio::time::sleep(Duration::from_millis(3)).await;
@@ -260,6 +270,7 @@ impl StorCtx {
                 use akd::storage::Database;
                 let recs: Vec<DbRecord> = st["recs"].as_array().unwrap().iter().map(rec_to_real).collect();
                 let _ = self.db.inner.batch_set(recs, akd::storage::DbSetState::General).await;
+                self.mark("ext_set");
                 tr.emit(json!({"ev": "ext_set", "recs": st["recs"]}));
             }
             "reject_next" => {
@@ -268,6 +279,7 @@ impl StorCtx {
             }
             "flush" => {
                 self.m.flush_cache().await;
+                self.mark("flush");
                 tr.emit(json!({"ev": "flush"}));
             }
             "get" => {
@@ -347,8 +359,14 @@ pub async fn run_storage_conc(b: &Value, tr: &mut Tracer) {
         let pid = t["pid"].as_u64().unwrap() as u32;
         let ops = t["ops"].as_array().unwrap().clone();
         let tctx = StorCtx { db: db.clone(), m: m.clone(), users: ctx.users.clone(), epochs: ctx.epochs.clone(), versions: ctx.versions.clone(), nodes: ctx.nodes.clone(), sleepy: false };
+        let start_ctl = db.ctl.clone();
+        let start_gate = b["start_gate"].as_bool().unwrap_or(false);
         handles.insert(pid, tokio::spawn(PID.scope(pid, async move {
             let mut scratch = Tracer::new();
+            if start_gate {
+                // the task begins at its first grant (its first step need not be a storage operation)
+                crate::hookdb::gate_wait(&start_ctl, pid, "start", String::new()).await;
+            }
             for op in ops.iter() {
                 tctx.apply(op, &mut scratch).await;
             }
@@ -400,13 +418,18 @@ pub async fn run_storage_conc(b: &Value, tr: &mut Tracer) {
     let log = db.take_log();
     db.set_log(false);
     let mut cursor: std::collections::HashMap<u32, usize> = std::collections::HashMap::new();
-    for o in log.iter().filter(|o| o.kind == "set" || o.kind == "batch_set") {
+    for o in log.iter().filter(|o| matches!(o.kind, "set" | "batch_set" | "ext_set" | "flush")) {
         let evs = match task_events.get(&o.pid) {
             Some(e) => e,
             None => continue,
         };
+        let want = match o.kind {
+            "ext_set" => "ext_set",
+            "flush" => "flush",
+            _ => "set",
+        };
         let c = cursor.entry(o.pid).or_insert(0);
-        while *c < evs.len() && evs[*c]["ev"] != "set" {
+        while *c < evs.len() && evs[*c]["ev"] != want {
             *c += 1;
         }
         if *c < evs.len() {
